@@ -52,6 +52,7 @@ MECH = {
     "boolarr": "C30/boolean-array-items-emitted",
     "itemsep": "C30/item-bindings-joined-with-itemseparator",
     "boolprefix": "C30/array-prefix-dropped-when-no-item-emits",
+    "arrorder": "C30/unbound-array-items-ordered-by-name",
 }
 
 
@@ -318,6 +319,40 @@ def same(pred: dict, sf: dict) -> bool:
     return all(pred.get(k) == sf.get(k) for k in keys)
 
 
+def unbound_array_blocks(tool, job):
+    """Token blocks of inputs that have no inputBinding themselves but whose array items do."""
+    blocks = []
+    for name, schema in tool["inputs"].items():
+        t = schema.get("type")
+        if "inputBinding" in schema or not (isinstance(t, dict) and t.get("type") == "array" and "inputBinding" in t
+                                             and isinstance(t.get("items"), str) and t["items"] != "boolean"):
+            continue
+        ib, block = t["inputBinding"], []
+        for x in job.get(name) or []:
+            v = "@DIR@/" + os.path.basename(x["path"]) if isinstance(x, dict) else str(x)
+            if "prefix" in ib and ib.get("separate", True):
+                block += [ib["prefix"], v]
+            elif "prefix" in ib:
+                block += [ib["prefix"] + v]
+            else:
+                block += [v]
+        if block:
+            blocks.append(block)
+    return blocks
+
+
+def moved_block(a: list, b: list, block: list) -> bool:
+    """b is a with the contiguous `block` taken out and put back at another index."""
+    n = len(block)
+    for i in range(len(a) - n + 1):
+        if a[i:i + n] == block:
+            rest = a[:i] + a[i + n:]
+            for j in range(len(rest) + 1):
+                if j != i and rest[:j] + block + rest[j:] == b:
+                    return True
+    return False
+
+
 def explain(sh: Shard, case, ref, sf):
     """Smallest set of listed mechanisms whose prediction equals StreamFlow's observation, or None."""
     app = applicable(case, ref)
@@ -325,6 +360,18 @@ def explain(sh: Shard, case, ref, sf):
         for mechs in itertools.combinations(app, n):
             if same(predict(sh, case, ref, mechs), sf):
                 return mechs
+    # the items of an array that is not bound itself are placed by (position, name) instead of before the named inputs
+    if sf.get("status") == "ok" and "ShellCommandRequirement" not in case["tool"]["requirements"]:
+        blocks = unbound_array_blocks(case["tool"], case["job"])
+        nonargv = [m for m in app if m in ("env", "stderr")]
+        for n in range(0, len(nonargv) + 1):
+            for mechs in itertools.combinations(nonargv, n):
+                pred = predict(sh, case, ref, mechs) if mechs else dict(ref)
+                if pred.get("status") != "ok":
+                    continue
+                for block in blocks:
+                    if moved_block(pred["argv"], sf["argv"], block) and same(dict(pred, argv=sf["argv"]), sf):
+                        return tuple(mechs) + ("arrorder",)
     return None
 
 
@@ -366,10 +413,23 @@ def diff(ref, sf):
     return [k for k in R.diff_keys(ref, sf) if k not in ("rc", "stray")]
 
 
-def shrink(sh: Shard, run: Runner, case, ref, sf, max_runs, deadline):
-    """Greedy one-removal-at-a-time shrinking while the divergence (same differing aspect) persists and
-    stays unexplained by the non-argv mechanisms."""
-    target = set(diff(ref, sf))
+def local_aspects(sh: Shard, case, ref, sf, dk):
+    """-> (mechanisms that account for an aspect on the tool as it is, aspects still unexplained)."""
+    local, rest = [], []
+    app = applicable(case, ref)
+    for k in dk:
+        if k == "stdout_content" and "stderr" in app and sf.get(k) == (ref.get(k) or "") + "ERR-MARK\n":
+            local.append("stderr")
+        elif k == "env" and "env" in app and predict(sh, case, ref, ("env",)).get("env") == sf.get("env"):
+            local.append("env")
+        else:
+            rest.append(k)
+    return local, rest
+
+
+def shrink(sh: Shard, run: Runner, case, ref, sf, target, max_runs, deadline):
+    """Greedy one-removal-at-a-time shrinking; a smaller tool is kept only if every aspect in `target`
+    (the aspects not yet explained) still differs."""
     cur, cur_ref, cur_sf = case, ref, sf
     runs = 0
     progress = True
@@ -386,7 +446,7 @@ def shrink(sh: Shard, run: Runner, case, ref, sf, max_runs, deadline):
             if s2 is None:
                 continue
             d2 = set(diff(r2, s2))
-            if d2 and (d2 & target or "status" in d2 or "status" in target):
+            if d2 and (target <= d2 or "status" in d2 or "status" in target):
                 cur, cur_ref, cur_sf = cand, r2, s2
                 progress = True
                 break
@@ -419,26 +479,15 @@ def judge(sh: Shard, run: Runner, case, d=None, ref_result=None, allow_shrink=Tr
     witness_case, w_ref, w_sf = case, ref, sf
     exhausted = True
     if mechs is None and allow_shrink:
-        small, s_ref, s_sf, (runs, exhausted) = shrink(sh, run, case, ref, sf, sh.pick(14, 40), deadline or (time.time() + 300))
+        # aspects the non-argv mechanisms account for on the original tool; the others drive the shrink
+        local, rest = local_aspects(sh, case, ref, sf, dk)
+        small, s_ref, s_sf, (runs, exhausted) = shrink(sh, run, case, ref, sf, set(rest), sh.pick(14, 40),
+                                                      deadline or (time.time() + 300))
         if small is not case:
             m2 = explain(sh, small, s_ref, s_sf)
             witness_case, w_ref, w_sf = small, s_ref, s_sf
-            if m2 is not None:
-                # the shrunk tool is explained; the original may contain further, independent aspects:
-                # they are explained only if the non-argv mechanisms account for them on the original
-                rest = [k for k in dk if k not in diff(s_ref, s_sf) and k != "status"]
-                extra = []
-                ok = True
-                for k in rest:
-                    if k == "stdout_content" and "stderr" in applicable(case, ref) and sf.get(k) == (ref.get(k) or "") + "ERR-MARK\n":
-                        extra.append("stderr")
-                    elif k == "env" and "env" in applicable(case, ref) and predict(sh, case, ref, ("env",)).get("env") == sf.get("env"):
-                        extra.append("env")
-                    else:
-                        ok = False
-                mechs = tuple(dict.fromkeys(list(m2) + extra)) if ok else None
-                if not ok:
-                    witness_case, w_ref, w_sf = case, ref, sf
+            if m2 is not None and set(rest) <= set(diff(s_ref, s_sf)) | ({"status"} if "status" in rest else set()):
+                mechs = tuple(dict.fromkeys(list(m2) + local))
     wit = {"kind": "tool", "class": case.get("class"), "tool": witness_case["tool"], "job": witness_case["job"],
            "differs": diff(w_ref, w_sf), "reference": w_ref, "streamflow": w_sf,
            "streamflow_log": [l[-500:] for l in log if "EXECUTING command" in l or "xception" in l][-3:],
@@ -555,4 +604,4 @@ def replay(sh: Shard, w: dict) -> None:
     case = {"kind": "tool", "class": w.get("class"), "tool": w["tool"], "job": w["job"]}
     # the probe path recorded in the witness belongs to another scratch directory
     case["tool"]["baseCommand"] = ["python3", run.probe]
-    judge(sh, run, case, allow_shrink=False)
+    judge(sh, run, case, allow_shrink=True, deadline=time.time() + 1800)
